@@ -3,7 +3,7 @@ CONSTANTS
   Bug = "none"
   Kinds <- AllKinds
   HiBytes <- AllBytes
-  K = 8
+  K = 5
   MmCoarse <- MmThorough
   DdCoarse <- DdThorough
   MmShift = 10
@@ -12,7 +12,7 @@ CONSTANTS
   RgbOthers <- OthersThorough
   F32s <- F32Vals
   LhBases = 4
-  LhPos <- LhPosQuick
+  LhPos <- LhPosOne
   OffHi <- AllBytes
 INVARIANT Fp16OK
 INVARIANT QuatOK
